@@ -307,6 +307,202 @@ theorem wrapped_calibrator_roundtrip (hI : IntRoundTrip) (hF : FloatRoundTrip) (
     subst hx
     simp [findFirst, findAll, mkEl, XmlNode.kids, Step.matches, step, XmlNode.isElem, XmlNode.tag, XmlNode.ns]
 
+/-! ### boolean expressions: conditions in ANDed / ORed groups nested to any depth -/
+
+/-- The two shapes of a condition the loader produces (right-hand side a parameter, or a literal). -/
+def CondWF (c : Condition) : Prop :=
+  (lookupOp c.op).isSome = true ∧
+  ((∃ rp, c.rightParam = some rp ∧ rp ≠ "" ∧ c.rightValue = none) ∨
+   (c.rightParam = none ∧ (∃ v, c.rightValue = some v) ∧ c.rightCal = false))
+
+mutual
+def andedWF : Anded → Prop
+  | .mk conds ors => (∀ c ∈ conds, CondWF c) ∧ oredsWF ors
+def oredsWF : List Ored → Prop
+  | [] => True
+  | o :: os => oredWF o ∧ oredsWF os
+def oredWF : Ored → Prop
+  | .mk conds ands => (∀ c ∈ conds, CondWF c) ∧ andedsWF ands
+def andedsWF : List Anded → Prop
+  | [] => True
+  | a :: as => andedWF a ∧ andedsWF as
+end
+
+mutual
+def andedDepth : Anded → Nat
+  | .mk _ ors => oredsDepth ors + 1
+def oredsDepth : List Ored → Nat
+  | [] => 0
+  | o :: os => max (oredDepth o) (oredsDepth os)
+def oredDepth : Ored → Nat
+  | .mk _ ands => andedsDepth ands + 1
+def andedsDepth : List Anded → Nat
+  | [] => 0
+  | a :: as => max (andedDepth a) (andedsDepth as)
+end
+
+theorem conditions_roundtrip (u : Option String) (cs : List Condition) (h : ∀ c ∈ cs, CondWF c) :
+    (cs.map (writeCondition u)).mapM (loadCondition u) = .ok cs := by
+  induction cs with
+  | nil => rfl
+  | cons c cs ih =>
+    have hc := h c (by simp)
+    simp only [List.map_cons, List.mapM_cons, bind, Except.bind, pure, Except.pure,
+      condition_roundtrip u c hc.1 hc.2, ih (fun c' h' => h c' (by simp [h']))]
+
+theorem matches_condition (u : Option String) (c : Condition) (t : String) :
+    (step t).matches u (writeCondition u c) = (t == "*" || "Condition" == t) := by
+  simp [Step.matches, step, writeCondition, mkEl, XmlNode.isElem, XmlNode.tag, XmlNode.ns]
+
+theorem matches_oreds (u : Option String) (os : List Ored) (t : String) :
+    ∀ x ∈ writeOreds u os, (step t).matches u x = (t == "*" || "ORedConditions" == t) := by
+  induction os with
+  | nil => intro x hx; simp [writeOreds] at hx
+  | cons o os ih =>
+    intro x hx
+    simp only [writeOreds, List.mem_cons] at hx
+    rcases hx with rfl | hx
+    · cases o; simp [Step.matches, step, writeOred, mkEl, XmlNode.isElem, XmlNode.tag, XmlNode.ns]
+    · exact ih x hx
+
+theorem matches_andeds (u : Option String) (as : List Anded) (t : String) :
+    ∀ x ∈ writeAndeds u as, (step t).matches u x = (t == "*" || "ANDedConditions" == t) := by
+  induction as with
+  | nil => intro x hx; simp [writeAndeds] at hx
+  | cons a as ih =>
+    intro x hx
+    simp only [writeAndeds, List.mem_cons] at hx
+    rcases hx with rfl | hx
+    · cases a; simp [Step.matches, step, writeAnded, mkEl, XmlNode.isElem, XmlNode.tag, XmlNode.ns]
+    · exact ih x hx
+
+theorem findAll_one (u : Option String) (t : String) (ns : Option String) (tag : String) (a : List (String × String))
+    (kids : List XmlNode) :
+    findAll u [step t] (mkEl ns tag a kids) = kids.filter ((step t).matches u) := by
+  simp only [findAll, mkEl, XmlNode.kids]
+  have : ∀ l : List XmlNode, (l.map (findAll u [])).flatten = l := by
+    intro l; induction l with
+    | nil => rfl
+    | cons x l ih => simp only [List.map_cons, List.flatten_cons, ih]; simp [findAll]
+  exact this _
+
+/-- In a group element, searching for conditions finds exactly the written conditions, and searching for the nested
+    groups finds exactly the written groups. -/
+theorem group_children (u : Option String) (conds : List Condition) (nested : List XmlNode) (gt : String)
+    (hn : ∀ t, ∀ x ∈ nested, (step t).matches u x = (t == "*" || gt == t)) (hgt : gt ≠ "Condition")
+    (hgs : gt ≠ "*") (ns : Option String) (tag : String) :
+    findAll u [step "Condition"] (mkEl ns tag [] (conds.map (writeCondition u) ++ nested)) = conds.map (writeCondition u) ∧
+    findAll u [step gt] (mkEl ns tag [] (conds.map (writeCondition u) ++ nested)) = nested := by
+  have hgt' : (gt == "Condition") = false := by simpa using hgt
+  have hgt'' : ("Condition" == gt) = false := by simpa using fun h => hgt h.symm
+  have hstar : ∀ s : String, s ≠ "*" → (s == "*") = false := by intro s h; simpa using h
+  constructor
+  · rw [findAll_one, List.filter_append]
+    have h1 : (conds.map (writeCondition u)).filter ((step "Condition").matches u) = conds.map (writeCondition u) := by
+      rw [List.filter_eq_self]; intro x hx
+      obtain ⟨c, _, rfl⟩ := List.mem_map.mp hx
+      rw [matches_condition]; decide
+    have h2 : nested.filter ((step "Condition").matches u) = [] := by
+      rw [List.filter_eq_nil_iff]; intro x hx
+      rw [hn "Condition" x hx, hgt']; decide
+    rw [h1, h2, List.append_nil]
+  · rw [findAll_one, List.filter_append]
+    have hs := hgs
+    have h1 : (conds.map (writeCondition u)).filter ((step gt).matches u) = [] := by
+      rw [List.filter_eq_nil_iff]; intro x hx
+      obtain ⟨c, _, rfl⟩ := List.mem_map.mp hx
+      rw [matches_condition, hstar gt hs, hgt'']; decide
+    have h2 : nested.filter ((step gt).matches u) = nested := by
+      rw [List.filter_eq_self]; intro x hx
+      rw [hn gt x hx]; simp
+    rw [h1, h2, List.nil_append]
+
+mutual
+/-- ANDed groups: conditions and nested ORed groups, to any depth the loader's recursion budget covers. -/
+theorem anded_roundtrip (u : Option String) (fuel : Nat) (a : Anded) (hwf : andedWF a) (hd : andedDepth a ≤ fuel) :
+    loadAnded u fuel (writeAnded u a) = .ok a := by
+  cases a with
+  | mk conds ors =>
+    simp only [andedWF] at hwf
+    simp only [andedDepth] at hd
+    cases fuel with
+    | zero => omega
+    | succ fuel =>
+      obtain ⟨h1, h2⟩ := group_children u conds (writeOreds u ors) "ORedConditions"
+        (fun t x hx => matches_oreds u ors t x hx) (by decide) (by decide) u "ANDedConditions"
+      simp only [writeAnded, loadAnded, h1, h2, conditions_roundtrip u conds hwf.1,
+        oreds_roundtrip u fuel ors hwf.2 (by omega), bind, Except.bind, pure, Except.pure]
+theorem oreds_roundtrip (u : Option String) (fuel : Nat) (os : List Ored) (hwf : oredsWF os) (hd : oredsDepth os ≤ fuel) :
+    (writeOreds u os).mapM (loadOred u fuel) = .ok os := by
+  cases os with
+  | nil => rfl
+  | cons o os =>
+    simp only [oredsWF] at hwf
+    simp only [oredsDepth] at hd
+    simp only [writeOreds, List.mapM_cons, ored_roundtrip u fuel o hwf.1 (by omega),
+      oreds_roundtrip u fuel os hwf.2 (by omega), bind, Except.bind, pure, Except.pure]
+theorem ored_roundtrip (u : Option String) (fuel : Nat) (o : Ored) (hwf : oredWF o) (hd : oredDepth o ≤ fuel) :
+    loadOred u fuel (writeOred u o) = .ok o := by
+  cases o with
+  | mk conds ands =>
+    simp only [oredWF] at hwf
+    simp only [oredDepth] at hd
+    cases fuel with
+    | zero => omega
+    | succ fuel =>
+      obtain ⟨h1, h2⟩ := group_children u conds (writeAndeds u ands) "ANDedConditions"
+        (fun t x hx => matches_andeds u ands t x hx) (by decide) (by decide) u "ORedConditions"
+      simp only [writeOred, loadOred, h1, h2, conditions_roundtrip u conds hwf.1,
+        andeds_roundtrip u fuel ands hwf.2 (by omega), bind, Except.bind, pure, Except.pure]
+theorem andeds_roundtrip (u : Option String) (fuel : Nat) (as : List Anded) (hwf : andedsWF as) (hd : andedsDepth as ≤ fuel) :
+    (writeAndeds u as).mapM (loadAnded u fuel) = .ok as := by
+  cases as with
+  | nil => rfl
+  | cons a as =>
+    simp only [andedsWF] at hwf
+    simp only [andedsDepth] at hd
+    simp only [writeAndeds, List.mapM_cons, anded_roundtrip u fuel a hwf.1 (by omega),
+      andeds_roundtrip u fuel as hwf.2 (by omega), bind, Except.bind, pure, Except.pure]
+end
+
+/-- A BooleanExpression (single condition, ANDed or ORed group nested up to the loader's recursion budget of 64)
+    survives write → load. -/
+theorem boolexpr_roundtrip (u : Option String) (e : BoolExpr)
+    (hwf : match e with
+      | .cond c => CondWF c
+      | .anded a => andedWF a ∧ andedDepth a ≤ FUEL
+      | .ored o => oredWF o ∧ oredDepth o ≤ FUEL) :
+    loadBoolExpr u (writeBoolExpr u e) = .ok e := by
+  cases e with
+  | cond c =>
+    have hf : findFirst u [step "Condition"] (writeBoolExpr u (.cond c)) = some (writeCondition u c) := by
+      simp only [findFirst, writeBoolExpr, findAll_one]
+      simp [matches_condition]
+    simp only [loadBoolExpr, hf, condition_roundtrip u c hwf.1 hwf.2, bind, Except.bind, pure, Except.pure]
+  | anded a =>
+    have hm := matches_andeds u [a]
+    simp only [writeAndeds, List.mem_cons, List.not_mem_nil, or_false, forall_eq] at hm
+    have hf1 : findFirst u [step "Condition"] (writeBoolExpr u (.anded a)) = none := by
+      simp only [findFirst, writeBoolExpr, findAll_one]
+      simp [hm]
+    have hf2 : findFirst u [step "ANDedConditions"] (writeBoolExpr u (.anded a)) = some (writeAnded u a) := by
+      simp only [findFirst, writeBoolExpr, findAll_one]
+      simp [hm]
+    simp only [loadBoolExpr, hf1, hf2, anded_roundtrip u FUEL a hwf.1 hwf.2, bind, Except.bind, pure, Except.pure]
+  | ored o =>
+    have hm := matches_oreds u [o]
+    simp only [writeOreds, List.mem_cons, List.not_mem_nil, or_false, forall_eq] at hm
+    have hf1 : findFirst u [step "Condition"] (writeBoolExpr u (.ored o)) = none := by
+      simp only [findFirst, writeBoolExpr, findAll_one]
+      simp [hm]
+    have hf2 : findFirst u [step "ANDedConditions"] (writeBoolExpr u (.ored o)) = none := by
+      simp only [findFirst, writeBoolExpr, findAll_one]
+      simp [hm]
+    have hf3 : findFirst u [step "ORedConditions"] (writeBoolExpr u (.ored o)) = some (writeOred u o) := by
+      simp only [findFirst, writeBoolExpr, findAll_one]
+      simp [hm]
+    simp only [loadBoolExpr, hf1, hf2, hf3, ored_roundtrip u FUEL o hwf.1 hwf.2, bind, Except.bind, pure, Except.pure]
+
 /-- The criteria of a context calibrator in the two forms that consist of comparisons. -/
 def CmpCriteria (crit : List Criterion) (cmps : List Comparison) : Prop :=
   crit = cmps.map Criterion.comparison ∧ cmps ≠ [] ∧ ∀ c ∈ cmps, (lookupOp c.op).isSome = true
@@ -322,7 +518,7 @@ theorem flatten_singletons {α β} (f : α → β) (l : List α) :
   | cons a l ih => simp [ih]
 
 /-- `ContextMatch` with one comparison or a `ComparisonList` of several is read back as the same criteria. -/
-theorem contextmatch_roundtrip (u : Option String) (crit : List Criterion) (cmps : List Comparison)
+theorem contextmatch_cmp_roundtrip (u : Option String) (crit : List Criterion) (cmps : List Comparison)
     (h : CmpCriteria crit cmps) :
     ∃ cm, writeContextMatch u crit = .ok cm ∧
       cm.isElem = true ∧ cm.tag = "ContextMatch" ∧ cm.ns = u ∧ loadMatchCriteria u true cm = .ok crit := by
@@ -351,14 +547,42 @@ theorem contextmatch_roundtrip (u : Option String) (crit : List Criterion) (cmps
       exact flatten_singletons _ _
     simp only [loadMatchCriteria, hff, hfa, if_true, comparisons_roundtrip u _ hop, bind, Except.bind, pure, Except.pure]
 
-/-- A context calibrator (comparison criteria plus a calibrator) survives write → load. -/
+/-- Well-formed boolean expressions: loader-producible conditions, nesting within the loader's recursion budget. -/
+def BoolWF : BoolExpr → Prop
+  | .cond c => CondWF c
+  | .anded a => andedWF a ∧ andedDepth a ≤ FUEL
+  | .ored o => oredWF o ∧ oredDepth o ≤ FUEL
+
+/-- The three forms of match criteria: one comparison, a list of comparisons, one boolean expression. -/
+def CritOK (crit : List Criterion) : Prop :=
+  (∃ cmps, CmpCriteria crit cmps) ∨ (∃ e, crit = [.boolExpr e] ∧ BoolWF e)
+
+theorem contextmatch_roundtrip (u : Option String) (crit : List Criterion) (h : CritOK crit) :
+    ∃ cm, writeContextMatch u crit = .ok cm ∧
+      cm.isElem = true ∧ cm.tag = "ContextMatch" ∧ cm.ns = u ∧ loadMatchCriteria u true cm = .ok crit := by
+  rcases h with ⟨cmps, h⟩ | ⟨e, rfl, he⟩
+  · exact contextmatch_cmp_roundtrip u crit cmps h
+  · refine ⟨mkEl u "ContextMatch" [] [writeBoolExpr u e], rfl, rfl, rfl, rfl, ?_⟩
+    have hb : loadBoolExpr u (writeBoolExpr u e) = .ok e := by
+      apply boolexpr_roundtrip; cases e <;> exact he
+    have h1 : findFirst u [step "ComparisonList"] (mkEl u "ContextMatch" [] [writeBoolExpr u e]) = none := by
+      simp [findFirst, findAll, mkEl, XmlNode.kids, Step.matches, step, XmlNode.isElem, XmlNode.tag, writeBoolExpr]
+    have h2 : findFirst u [step "Comparison"] (mkEl u "ContextMatch" [] [writeBoolExpr u e]) = none := by
+      simp [findFirst, findAll, mkEl, XmlNode.kids, Step.matches, step, XmlNode.isElem, XmlNode.tag, writeBoolExpr]
+    have h3 : findFirst u [step "BooleanExpression"] (mkEl u "ContextMatch" [] [writeBoolExpr u e])
+        = some (writeBoolExpr u e) := by
+      simp [findFirst, findAll, mkEl, XmlNode.kids, Step.matches, step, XmlNode.isElem, XmlNode.tag, XmlNode.ns,
+        writeBoolExpr]
+    simp only [loadMatchCriteria, h1, h2, h3, hb, bind, Except.bind, pure, Except.pure]
+
+/-- A context calibrator (match criteria in any of their three forms plus a calibrator) survives write → load. -/
 theorem context_calibrator_roundtrip (hI : IntRoundTrip) (hF : FloatRoundTrip) (u : Option String)
-    (c : ContextCalibrator) (cmps : List Comparison) (hcrit : CmpCriteria c.criteria cmps) (hcal : CalWF c.calibrator)
+    (c : ContextCalibrator) (hcrit : CritOK c.criteria) (hcal : CalWF c.calibrator)
     (x : XmlNode) (hw : writeContextCalibrator u c = .ok x) :
     loadContextCalibrator u x = .ok c ∧ x.isElem = true := by
   obtain ⟨crit, cal⟩ := c
   simp only at hcrit hcal
-  obtain ⟨cm, hcm, hel, htag, hns, hload⟩ := contextmatch_roundtrip u crit cmps hcrit
+  obtain ⟨cm, hcm, hel, htag, hns, hload⟩ := contextmatch_roundtrip u crit hcrit
   simp only [writeContextCalibrator, bind, Except.bind, hcm] at hw
   cases hwc : writeCalibrator u cal with
   | error e => simp [hwc, pure, Except.pure] at hw
@@ -404,10 +628,10 @@ theorem context_calibrator_roundtrip (hI : IntRoundTrip) (hF : FloatRoundTrip) (
 
 /-! ### numeric encodings with their calibrators -/
 
-/-- Calibrator sets the theorems cover: comparison criteria in context matches, loader-producible calibrators. -/
+/-- Calibrator sets the theorems cover: any form of match criteria, loader-producible calibrators. -/
 def CalibsWF (c : Calibs) : Prop :=
   (∀ d, c.default = some d → CalWF d) ∧
-  ∀ x ∈ c.contexts, (∃ cmps, CmpCriteria x.criteria cmps) ∧ CalWF x.calibrator
+  ∀ x ∈ c.contexts, CritOK x.criteria ∧ CalWF x.calibrator
 
 theorem writeDefaultCal_shape (u : Option String) (dflt : Option Calibrator) (d : List XmlNode)
     (h : writeDefaultCal u dflt = .ok d) :
@@ -471,7 +695,7 @@ theorem default_calibrator_roundtrip (hI : IntRoundTrip) (hF : FloatRoundTrip) (
 
 theorem context_list_roundtrip (hI : IntRoundTrip) (hF : FloatRoundTrip) (u : Option String)
     (ctxs : List ContextCalibrator)
-    (hwf : ∀ x ∈ ctxs, (∃ cmps, CmpCriteria x.criteria cmps) ∧ CalWF x.calibrator) (cs : List XmlNode)
+    (hwf : ∀ x ∈ ctxs, CritOK x.criteria ∧ CalWF x.calibrator) (cs : List XmlNode)
     (hcs : writeContextList u ctxs = .ok cs) (tag : String) (attrs : List (String × String)) (d : List XmlNode)
     (x : XmlNode) (hd : d = [] ∨ d = [mkEl u "DefaultCalibrator" [] [x]]) :
     loadContextCalibrators u (mkEl u tag attrs (d ++ cs)) = .ok (if ctxs.isEmpty then none else some ctxs) := by
@@ -480,12 +704,12 @@ theorem context_list_roundtrip (hI : IntRoundTrip) (hF : FloatRoundTrip) (u : Op
       simp [loadContextCalibrators, findFirst, findAll, mkEl, XmlNode.kids, Step.matches, step, XmlNode.isElem, XmlNode.tag]
   · have hel := mapM_all (writeContextCalibrator u) (fun b => b.isElem = true) ctxs
       (fun c hc b hb => by
-        obtain ⟨⟨cmps, h1⟩, h2⟩ := hwf c hc
-        exact (context_calibrator_roundtrip hI hF u c cmps h1 h2 b hb).2) xs hm
+        obtain ⟨h1, h2⟩ := hwf c hc
+        exact (context_calibrator_roundtrip hI hF u c h1 h2 b hb).2) xs hm
     have hrt := mapM_roundtrip (writeContextCalibrator u) (loadContextCalibrator u) ctxs
       (fun c hc b hb => by
-        obtain ⟨⟨cmps, h1⟩, h2⟩ := hwf c hc
-        exact (context_calibrator_roundtrip hI hF u c cmps h1 h2 b hb).1) xs hm
+        obtain ⟨h1, h2⟩ := hwf c hc
+        exact (context_calibrator_roundtrip hI hF u c h1 h2 b hb).1) xs hm
     have he : (mkEl u "ContextCalibratorList" [] xs).elems = xs := by
       simp only [mkEl, XmlNode.elems, XmlNode.kids]
       rw [List.filter_eq_self]; exact hel
